@@ -27,6 +27,7 @@ func init() {
 		{Name: "Delete compacts the slot of the searched node, not of the unlinked one", File: mw, Old: "\tz = this.delete(z)\n", New: "\tthis.delete(z)\n", Expect: "successor-transfer"},
 		{Name: "search descends the wrong way", File: mw, Old: "\t\tif cmp := Compare(p.Key, key); cmp < 0 {\n\t\t\tp = p.Right", New: "\t\tif cmp := Compare(p.Key, key); cmp < 0 {\n\t\t\tp = p.Left", Expect: "descent-orientation :: mapImp.search"},
 		{Name: "mapDelete routed to Lookup", File: mw, Old: "func mapDelete(m: *mapImp, k: interface{}) {\n\tif m == nil {\n\t\treturn\n\t}\n\tm.Delete(k)", New: "func mapDelete(m: *mapImp, k: interface{}) {\n\tif m == nil {\n\t\treturn\n\t}\n\tm.Lookup(k)", Expect: "operation-routing :: mapDelete"},
+		{Name: "Compare returns -1 both ways for different comparison ids", File: "waroot/src/runtime/interface.wat.ws", Old: "\tif (result i32) ;;if l.comp > r.comp\n\t  i32.const 1", New: "\tif (result i32) ;;if l.comp > r.comp\n\t  i32.const -1", Expect: "compare-antisymmetric"},
 		{Name: "Delete re-parents the left child twice after compaction", File: mw, Old: "\t\tif lastNode.Right != this.NIL {\n\t\t\tlastNode.Right.SetParent(lastNode)", New: "\t\tif lastNode.Right != this.NIL {\n\t\t\tlastNode.Left.SetParent(lastNode)", Expect: "nil-guard-target"},
 		{Name: "map delete helper wraps an interface key instead of converting it", File: "internal/backends/compiler_wat/wir/value_map.go", Old: "\t\tki := NewLocal(\"ki\", ei_type)\n\t\tf.Locals = append(f.Locals, ki)\n\n\t\tif k_is_iface {\n\t\t\tf.Insts = append(f.Insts, module.EmitGenChangeInterface(k, ei_type)...)\n\t\t} else {\n\t\t\tf.Insts = append(f.Insts, module.EmitGenMakeInterface(k, ei_type)...)\n\t\t}\n\t\tf.Insts = append(f.Insts, ki.EmitPop()...)\n\n\t\tf.Insts = append(f.Insts, m.EmitPushNoRetain()...)\n\t\tf.Insts = append(f.Insts, ki.EmitPushNoRetain()...)\n\t\tf.Insts = append(f.Insts, wat.NewInstCall(\"runtime.mapDelete\"))", New: "\t\tki := NewLocal(\"ki\", ei_type)\n\t\tf.Locals = append(f.Locals, ki)\n\n\t\tf.Insts = append(f.Insts, module.EmitGenMakeInterface(k, ei_type)...)\n\t\tf.Insts = append(f.Insts, ki.EmitPop()...)\n\n\t\tf.Insts = append(f.Insts, m.EmitPushNoRetain()...)\n\t\tf.Insts = append(f.Insts, ki.EmitPushNoRetain()...)\n\t\tf.Insts = append(f.Insts, wat.NewInstCall(\"runtime.mapDelete\"))", Expect: "interface-boxing-guard"},
 		{Name: "map update helper tests the value's type for the key", File: "internal/backends/compiler_wat/wir/value_map.go", Old: "\t\tif k_is_iface {\n\t\t\tf.Insts = append(f.Insts, module.EmitGenChangeInterface(k, ei_type)...)\n\t\t} else {\n\t\t\tf.Insts = append(f.Insts, module.EmitGenMakeInterface(k, ei_type)...)\n\t\t}\n\t\tf.Insts = append(f.Insts, ki.EmitPop()...)\n\n\t\tif v_is_iface {", New: "\t\tif v_is_iface {\n\t\t\tf.Insts = append(f.Insts, module.EmitGenChangeInterface(k, ei_type)...)\n\t\t} else {\n\t\t\tf.Insts = append(f.Insts, module.EmitGenMakeInterface(k, ei_type)...)\n\t\t}\n\t\tf.Insts = append(f.Insts, ki.EmitPop()...)\n\n\t\tif v_is_iface {", Expect: "interface-boxing-guard"},
@@ -210,6 +211,7 @@ func runC13(c *Ctx) {
 	}
 
 	c13NilGuardTarget(c, std, mf)
+	c13CompareAntisymmetric(c)
 
 	// (2) descent orientation
 	c13Descent(c, std, mf, need("descent-orientation", "mapImp.insert"), "mapImp.insert")
